@@ -411,17 +411,34 @@ class Evaluator(object):
 
     def _assume_env(self, env, c, pol):
         """the environment inside a branch: values that were chosen on this very condition are the chosen ones"""
-        cc, flip = c, False
-        while cc.op == "un" and cc.a[0] == "not":
-            cc, flip = cc.a[1], not flip
-        if cc.op == "cmp" and cc.a[0] in ("isnot", "notin", "!="):
-            cc = tm.cmp({"isnot": "is", "notin": "in", "!=": "=="}[cc.a[0]], cc.a[1], cc.a[2])
-            flip = not flip
-        p = (not pol) if flip else pol
-        out = {}
-        memo = {}
-        for k, v in env.items():
-            out[k] = tm.assume(v, cc, p, memo) if hasattr(v, "op") else v
+        facts = []
+
+        def split(x, p_):
+            while x.op == "un" and x.a[0] == "not":
+                x, p_ = x.a[1], not p_
+            if x.op == "bool" and ((x.a[0] == "or" and not p_) or (x.a[0] == "and" and p_)):
+                # `a or b` is false: both are false; `a and b` is true: both are true
+                for y in x.a[1:]:
+                    split(y, p_)
+                return
+            if x.op == "cmp" and x.a[0] in ("isnot", "notin", "!="):
+                x = tm.cmp({"isnot": "is", "notin": "in", "!=": "=="}[x.a[0]], x.a[1], x.a[2])
+                p_ = not p_
+            facts.append((x, p_))
+
+        split(c, pol)
+        # ... and the test as a whole (values chosen on the very same compound test)
+        cw, pw = c, pol
+        while cw.op == "un" and cw.a[0] == "not":
+            cw, pw = cw.a[1], not pw
+        if not any(x is cw for x, _ in facts):
+            facts.insert(0, (cw, pw))
+        out = dict(env)
+        for cc, p in facts[:8]:
+            memo = {}
+            for k, v in out.items():
+                if hasattr(v, "op"):
+                    out[k] = tm.assume(v, cc, p, memo)
         return out
 
     def if_stmt(self, st, env):
